@@ -265,6 +265,51 @@ def h_validate(c, h, o, j):
     c.extra = {"kind": "V", "o": o, "h": h, "tuples": sorted(ex), "witness": {str(list(t)): inp for t, inp in tuples}}
 
 
+def h_nest(c):
+    """(N) the five segments of a face nest between the non-Hilbert and the Hilbert resolutions: the quintant in which the real
+    _get_pentagon draws the resolution-1 cell (face, segment) is the quintant in which it draws that cell's resolution-2/3
+    descendants, and the segment _lonlat_to_estimate assigns at resolution 1 is the one it assigns at resolution 2 for the same
+    point (face: forks over the real origins table; segment / quintant: symbolic 0..4)."""
+    import a5.core.cell as cm
+    import a5.core.origin as og
+    f = c.int("face", 0, 11)
+    origin = og.origins[f]
+    seg = c.int("segment", 0, 4)
+    cap = {}
+    saved = {k: getattr(cm, k) for k in ("get_quintant_vertices", "get_pentagon_vertices", "s_to_anchor", "get_quintant_polar",
+                                         "find_nearest_origin", "ij_to_s", "face_to_ij")}
+    try:
+        cm.get_quintant_vertices = lambda q: cap.__setitem__("q1", q) or "quintant-shape"
+        cm.get_pentagon_vertices = lambda h, q, anchor: cap.__setitem__("q%d" % (h + 1), q) or "pentagon-shape"
+        cm.s_to_anchor = lambda s_, h, o: cap.__setitem__("o%d" % (h + 1), o) or "anchor"
+        for r in (1, 2, 3):
+            cm._get_pentagon({"S": 0, "segment": seg, "origin": origin, "resolution": r})
+        qe, oe = og.segment_to_quintant(seg, origin)
+        for r in (2, 3):
+            if "q%d" % r not in cap or "q1" not in cap:
+                c.fail("segments-nest:_get_pentagon-reaches-the-tiling")
+                return
+            c.prove(cap["q1"] == cap["q%d" % r], "segments-nest:resolution-1-quintant==quintant-of-its-descendants")
+            c.prove(cap["o%d" % r] == oe if isinstance(cap["o%d" % r], str) else False, "segments-nest:orientation-from-the-origin-table")
+        c.prove(cap["q1"] == qe, "segments-nest:resolution-1-quintant==segment_to_quintant")
+        # forward direction: the quintant found for a point is mapped to the same segment at resolutions 1 and 2
+        qq = c.int("quintant", 0, 4).__index__()          # concrete per path (the rotation that follows is float code)
+        cm.get_quintant_polar = lambda polar: qq
+        cm.find_nearest_origin = lambda sph: origin
+        cm.face_to_ij = lambda pt: (0.0, 0.0)
+        cm.ij_to_s = lambda ij, h, o: cap.__setitem__("fo", o) or 0
+        e0 = cm._lonlat_to_estimate((10.0, 20.0), 0)
+        e1 = cm._lonlat_to_estimate((10.0, 20.0), 1)
+        e2 = cm._lonlat_to_estimate((10.0, 20.0), 2)
+        ge, oe2 = og.quintant_to_segment(qq, origin)
+        c.prove(sx.And(e1["segment"] == e2["segment"], e1["segment"] == ge), "segments-nest:lonlat-segment-at-resolution-1==at-resolution-2")
+        c.prove(e0["origin"] is origin and e1["origin"] is origin and e2["origin"] is origin, "segments-nest:same-face-at-resolutions-0-1-2")
+        c.prove(cap.get("fo") == oe2, "segments-nest:curve-orientation-from-the-origin-table")
+    finally:
+        for k, v in saved.items():
+            setattr(cm, k, v)
+
+
 def h_bound(c):
     c.prove(R_LIMIT[3] + R_LIMIT[1] / 4 <= PLANAR_BOUND + 1e-12 and PLANAR_BOUND < 1.5,
             "tail:ratio(any depth)<=R3+R1/4=%.3f<1.5" % PLANAR_BOUND)
@@ -291,6 +336,7 @@ def jobs(tier, seed):
                 js.append(Job("V[h=%d,%s,j=%d]" % (h, o, j), "h_validate", {"h": h, "o": o, "j": j},
                               {"query_timeout_ms": 300000}, weight=2 ** h / 4))
     js.append(Job("bound", "h_bound", {}, {}))
+    js.append(Job("N[segments-nest]", "h_nest", {}, {"max_paths": 5000}, weight=5))
     js.extend(selftests(seed))
     return js
 
@@ -398,9 +444,28 @@ print("ok")
 """
 
 
+_NEST_REPLAY = _PRE + """
+from a5.core.serialization import cell_to_children
+for c1 in cell_to_children(0, 1):
+    for d in cell_to_children(c1, 4):
+        if gc(a5.cell_to_lonlat(d), a5.cell_to_lonlat(c1)) > 1.5 * math.sqrt(cell_area(1)):
+            bad("descendant-centre-far-from-resolution-1-ancestor:face=%d" % a5.core.serialization.deserialize(c1)["origin"].id)
+    p = a5.cell_to_lonlat(c1)
+    if cell_to_parent(a5.lonlat_to_cell(p, 3), 1) != a5.lonlat_to_cell(p, 1):
+        bad("resolution-1-cell-of-a-point-is-not-the-ancestor-of-its-resolution-3-cell")
+for c0 in cell_to_children(0, 0):
+    for d in cell_to_children(c0, 3):
+        if gc(a5.cell_to_lonlat(d), a5.cell_to_lonlat(c0)) > 1.5 * math.sqrt(cell_area(0)):
+            bad("descendant-centre-far-from-resolution-0-ancestor")
+print("ok")
+"""
+
+
 def replay(cx):
     p, inp = cx["params"], cx["inputs"]
     o = p.get("o") or (cx.get("info") or {}).get("o")
+    if cx["func"] == "h_nest":
+        return {"script": _NEST_REPLAY, "description": "resolution 0/1 cells vs their descendants on all 12 faces x 5 segments", "candidate": True}
     if cx["label"] == "child-pentagon-overlaps-parent-pentagon":
         from .common import VERIF
         return {"script": _OVERLAP_REPLAY % (VERIF, o), "description": "child pentagon vs parent pentagon (orientation %s)" % o, "candidate": True}
